@@ -15,6 +15,7 @@ SEEDS = [
     ('closure_suffix', "s: {'a'}", "\n"),
     ('join_op', "s: ','", "{'a'}\n"),
     ('rule_def_op', "s", " 'a'\n"),
+    ('rule_def_op_bnf', "s:", "= 'a'\n"),
     ('meta_name', "s: @", "nt\n"),
     ('after_dollar', "s: $", "\n"),
     ('regex_content', "s: /a", "/\n"),
@@ -29,7 +30,7 @@ SEEDS = [
     ('group_content', "s: (", ")\n"),
     ('optional_q', "s: 'a'", "\n"),
 ]
-QUICK = ['expr_start', 'prefix_op', 'naming_op', 'rule_def_op', 'alert_level', 'params', 'leading']
+QUICK = ['expr_start', 'prefix_op', 'naming_op', 'rule_def_op', 'rule_def_op_bnf', 'alert_level', 'params', 'leading']
 
 
 def norm(v):
